@@ -694,13 +694,13 @@ pub fn property() -> Property {
         ],
         both_profiles: false,
         subs: vec![
-            sub("cliques/maximal", 60_000, 1_500_000, cliques_strategy, cliques_run),
-            sub("coloring/dsatur", 80_000, 2_000_000, coloring_strategy, coloring_run),
-            sub("fas/greedy", 80_000, 2_000_000, fas_strategy, fas_run),
-            sub("tred/reduction+closure", 60_000, 1_500_000, tred_strategy, tred_run),
-            sub("simple_paths/all", 80_000, 2_000_000, paths_strategy, paths_run),
-            sub("steiner/tree", 80_000, 2_000_000, steiner_strategy, steiner_run),
-            sub("page_rank/laws", 40_000, 1_000_000, pr_strategy, pr_run),
+            sub("cliques/maximal", 500_000, 8_000_000, cliques_strategy, cliques_run),
+            sub("coloring/dsatur", 600_000, 10_000_000, coloring_strategy, coloring_run),
+            sub("fas/greedy", 800_000, 20_000_000, fas_strategy, fas_run),
+            sub("tred/reduction+closure", 600_000, 15_000_000, tred_strategy, tred_run),
+            sub("simple_paths/all", 800_000, 20_000_000, paths_strategy, paths_run),
+            sub("steiner/tree", 600_000, 10_000_000, steiner_strategy, steiner_run),
+            sub("page_rank/laws", 400_000, 10_000_000, pr_strategy, pr_run),
         ],
     }
 }
